@@ -14,7 +14,7 @@ import (
 func c04cli(c *h.Ctx) {
 	dir := caseDir(c, "c04cli")
 	defer os.RemoveAll(dir)
-	shapes := []string{"task-shared-by-named-and-unnamed-stage", "three-independent", "diamond", "interactive-and-plain", "unnamed-stages-of-distinct-tasks"}
+	shapes := []string{"task-shared-by-named-and-unnamed-stage", "three-independent", "diamond", "interactive-and-plain", "unnamed-stages-of-distinct-tasks", "partial-lines"}
 	formats := []string{"raw", "prefixed"}
 	h.Par(len(shapes)*len(formats), 5, func(i int) {
 		sh, format := shapes[i%len(shapes)], formats[i/len(shapes)]
@@ -56,6 +56,19 @@ func c04cli(c *h.Ctx) {
 				} else {
 					stages = append(stages, gen.OM{{K: "task", V: n}})
 				}
+			}
+		case "partial-lines":
+			// every stage announces itself with a line it does not finish (a prompt, a progress message) before it waits
+			// for the others; what a stage has or has not written holds nobody else up
+			for _, n := range []string{"a", "b", "c"} {
+				var others []string
+				for _, o := range []string{"a", "b", "c"} {
+					if o != n {
+						others = append(others, o)
+					}
+				}
+				tasks.Set(n, gen.OM{{K: "command", V: []interface{}{"printf 'working on " + n + " ... '", wait(n, others...) + "; echo finished; printf 'and a tail without a line end'"}}})
+				stages = append(stages, gen.OM{{K: "name", V: "stage-" + n}, {K: "task", V: n}})
 			}
 		case "diamond":
 			tasks.Set("top", gen.OM{{K: "command", V: []interface{}{"true"}}})
